@@ -42,6 +42,12 @@ type Rule struct {
 
 	// imports to add: alias=path
 	Imports map[string]string `json:"imports,omitempty"`
+
+	// wrapall: wrap every exported method of Recv declared in File (or only Names, minus Exclude)
+	// with a generic hook `Hook func(recv T, name string, args []any) (rets []any, handled bool)`
+	// that must be declared by a harness file of the package.
+	Names   []string `json:"names,omitempty"`
+	Exclude []string `json:"exclude,omitempty"`
 }
 
 type RuleFile struct {
@@ -302,6 +308,36 @@ func apply(fset *token.FileSet, f *ast.File, r Rule) (int, []string, error) {
 			extra = append(extra, w)
 			n++
 		}
+	case "wrapall":
+		excl := map[string]bool{}
+		for _, x := range r.Exclude {
+			excl[x] = true
+		}
+		only := map[string]bool{}
+		for _, x := range r.Names {
+			only[x] = true
+		}
+		for _, d := range f.Decls {
+			fd, ok := d.(*ast.FuncDecl)
+			if !ok || fd.Body == nil || fd.Recv == nil {
+				continue
+			}
+			nm := fd.Name.Name
+			if funcName(fd) != r.Recv+"."+nm || excl[nm] {
+				continue
+			}
+			if len(only) > 0 {
+				if !only[nm] {
+					continue
+				}
+			} else if !ast.IsExported(nm) {
+				continue
+			}
+			w := makeGenericWrapper(fset, fd, r)
+			fd.Name = ast.NewIdent(nm + "__orig")
+			extra = append(extra, w)
+			n++
+		}
 	case "addimport":
 		n = 1
 	case "append":
@@ -311,6 +347,79 @@ func apply(fset *token.FileSet, f *ast.File, r Rule) (int, []string, error) {
 		return 0, nil, fmt.Errorf("unknown rule kind %q", r.Kind)
 	}
 	return n, extra, nil
+}
+
+// makeGenericWrapper emits
+//
+//	func (recv T) Name(a0 A0, ...) (R0, R1) {
+//		if Hook != nil {
+//			if rets, ok := Hook(recv, "Name", []any{a0, ...}); ok { r0, _ := rets[0].(R0); ...; return r0, r1 }
+//		}
+//		return recv.Name__orig(a0, ...)
+//	}
+func makeGenericWrapper(fset *token.FileSet, fd *ast.FuncDecl, r Rule) string {
+	var params, args, anyArgs []string
+	i := 0
+	if fd.Type.Params != nil {
+		for _, fl := range fd.Type.Params.List {
+			ts := exprString(fset, fl.Type)
+			k := len(fl.Names)
+			if k == 0 {
+				k = 1
+			}
+			for j := 0; j < k; j++ {
+				nm := fmt.Sprintf("a%d", i)
+				i++
+				params = append(params, nm+" "+ts)
+				anyArgs = append(anyArgs, nm)
+				if strings.HasPrefix(ts, "...") {
+					args = append(args, nm+"...")
+				} else {
+					args = append(args, nm)
+				}
+			}
+		}
+	}
+	var rets []string
+	if fd.Type.Results != nil {
+		for _, fl := range fd.Type.Results.List {
+			ts := exprString(fset, fl.Type)
+			k := len(fl.Names)
+			if k == 0 {
+				k = 1
+			}
+			for j := 0; j < k; j++ {
+				rets = append(rets, ts)
+			}
+		}
+	}
+	retSig := ""
+	if len(rets) == 1 {
+		retSig = " " + rets[0]
+	} else if len(rets) > 1 {
+		retSig = " (" + strings.Join(rets, ", ") + ")"
+	}
+	recvT := exprString(fset, fd.Recv.List[0].Type)
+	var b strings.Builder
+	fmt.Fprintf(&b, "func (recv %s) %s(%s)%s {\n", recvT, fd.Name.Name, strings.Join(params, ", "), retSig)
+	fmt.Fprintf(&b, "\tif %s != nil {\n\t\tif rets, ok := %s(recv, %q, []any{%s}); ok {\n", r.Hook, r.Hook, fd.Name.Name, strings.Join(anyArgs, ", "))
+	var rn []string
+	for j, t := range rets {
+		fmt.Fprintf(&b, "\t\t\tr%d, _ := rets[%d].(%s)\n", j, j, t)
+		rn = append(rn, fmt.Sprintf("r%d", j))
+	}
+	if len(rets) == 0 {
+		b.WriteString("\t\t\t_ = rets\n\t\t\treturn\n")
+	} else {
+		fmt.Fprintf(&b, "\t\t\treturn %s\n", strings.Join(rn, ", "))
+	}
+	b.WriteString("\t\t}\n\t}\n")
+	if len(rets) == 0 {
+		fmt.Fprintf(&b, "\trecv.%s__orig(%s)\n}\n", fd.Name.Name, strings.Join(args, ", "))
+	} else {
+		fmt.Fprintf(&b, "\treturn recv.%s__orig(%s)\n}\n", fd.Name.Name, strings.Join(args, ", "))
+	}
+	return b.String()
 }
 
 func mustExpr(s string) ast.Expr {
